@@ -48,7 +48,7 @@ def run(ctx, drv):
     ctx.nontrivial_rule = ("generations of real runs (NSGA-II, NSGA-II+archive, NSGA-III, SPEA2, GDE3, eps-NSGA-II, eps-MOEA, OMOPSO, "
                            "CMA-ES, GA, ES) on problems with 1-5 objectives, constrained and not, population sizes 4-13; one case = one "
                            "generation; non-trivial = front 0 of parents+offspring is a proper subset of them; distinct by "
-                           "(algorithm, seed, step) + SPEA2 selection as a function on random merged populations with ties; GA / ES survival replayed")
+                           "(algorithm, seed, step) + SPEA2 selection as a function on random merged populations with ties; GA / ES survival replayed; NSGA-III reference-point truncation as a function (grids, fronts, scaled, degenerate and negative objectives, stale / infinite ideal points, scripted random.choice outcomes)")
     reqs, post = [], []
 
     def ask(line, fn):
@@ -187,7 +187,8 @@ def run(ctx, drv):
         N = rng.randrange(1, n + 1)
         kk = rng.choice([1, 1, 0, 2])
         grid = rng.choice([[0, 1, 2], [0, 1, 2, 3, 4], None])
-        sols = [mk_sol(p, [float(rng.choice(grid)) if grid else rng.uniform(0, 1) for _ in range(nobj)], float(rng.choice([0, 0, 1, 2])) if con else 0.0) for _ in range(n)]
+        cvpool = [0.0, 0.0, 1.0, 2.0] if rng.random() < 0.65 else [0.0, 0.0, 1e-7, 2e-7, 5e-7, 1e-12]
+        sols = [mk_sol(p, [float(rng.choice(grid)) if grid else rng.uniform(0, 1) for _ in range(nobj)], rng.choice(cvpool) if con else 0.0) for _ in range(n)]
         alg = A_.SPEA2(p, population_size=N, k=kk)
         inp = {"maximise": list(dirs), "constrained": con, "N": N, "k": kk, "merged": [[list(map(float, s.objectives)), float(s.constraint_violation)] for s in sols]}
 
@@ -214,6 +215,18 @@ def run(ctx, drv):
             else ctx.disagree("SPEA2 _assign_fitness + _truncate as a function (spea2Survival)", inp, obs, g))
         ctx.case(("spea2fn", repr(inp)), n > N)
     ctx.count("spea2_function_cases", 300 if ctx.quick() else 6000)
+    # ---- NSGA-III's environmental selection as a function (ranks, ideal point, intercepts, association, niching with the
+    # recorded random.choice outcomes): the model must reproduce survivors and ideal point exactly
+    import n3fn
+    nn3 = 300 if ctx.quick() else 5000
+    for t in range(nn3):
+        line, obs, inp, fails, nontriv = n3fn.case(rng, t)
+        for kind, got, want in fails:
+            ctx.fail(kind, inp, got, want, "algorithms.NSGAIII._reference_point_truncate")
+        ask(line, lambda g, obs=obs, inp=inp: None if g.strip() == obs.strip()
+            else ctx.disagree("NSGA-III _reference_point_truncate as a function (nsga3Truncate: survivors, ideal point, draws consumed)", inp, obs, g))
+        ctx.case(("nsga3fn", line), nontriv)
+    ctx.count("nsga3_function_cases", nn3)
     if drv.ok:
         out = drv.batch(reqs)
         for g, fn in zip(out, post):
